@@ -10,7 +10,7 @@ EXPLANATION = (
     "(write rooted in *self, call receiving a &mut rooted in *self, any use of the callback, construction of a "
     "non-`none` ReceivePacket) is unreachable from the entry once the pass edges of the token gate are removed "
     "(0.6: `state.token()` is None / `token != expected` is false; 0.7: `token != expected_token` is false, and for "
-    "connectionless packets both own/their token comparisons).  O2: State::token / own_token / their_token return "
+    "connectionless packets both own/their token comparisons).  O1b: each token comparison is decisive on its own -- on its mismatch edge only the warning and `return none` follow (so an inverted first comparison is not masked by a later one).  O2: State::token / own_token / their_token return "
     "Some exactly for the variants whose payload carries that field.  O3: the 0.7 assignment `expected_token = "
     "TOKEN_NONE` is dominated by `type_ is Control(Token)`, `state is PendingConnect`, `token == TOKEN_NONE`, and "
     "under these variant facts the only effect reachable is send_control_with_token.  O4: the reader's token hint "
@@ -121,6 +121,28 @@ def gate(prog, rep, ver, mod, pmod):
                 "effect `%s` is reachable WITHOUT passing the token comparison") % ef.desc[:120],
                body.loc(ef.ln))
     rep.extra.setdefault("gates", {})[ver] = [{"bb": g[0], "pass_to": g[1], "kind": g[2], "cond": g[3]} for g in gates]
+    # O1b: every token comparison is itself decisive: on its mismatch edge nothing but the warning and `return none` follows.
+    # (O1 alone is satisfied when a *later* comparison still shields the effects, e.g. if the first of the two 0.7
+    # connectionless comparisons were inverted.)
+    eff_blocks = {}
+    for ef in effs:
+        if ver == "0.6" and ef.kind == "ctor" and ef.desc.endswith("::connless"):
+            continue
+        if ef.kind == "use" and ef.desc.split("(")[0].endswith("::warn"):
+            continue
+        eff_blocks.setdefault(ef.bb, ef)
+    for i, g in enumerate([g for g in gates if g[2] == "token-compare"]):
+        fails = [s_ for s_ in body.succ[g[0]] if s_ != g[1]]
+        hit = None
+        for f in fails:
+            for b2 in body.reachable_from(f):
+                if b2 in eff_blocks:
+                    hit = eff_blocks[b2]
+                    break
+        rep.ob(rule, "%s | mismatch edge of comparison #%d is inert" % (ver, i), hit is None,
+               "on a mismatch only the warning and `return none` follow: %s" % g[3][:90] if hit is None else
+               "after the comparison `%s` FAILS, the effect `%s` is still reachable: the comparison is not decisive (inverted or bypassed)" % (g[3][:90], hit.desc[:80]),
+               body.loc(body.blocks[g[0]]["term"].get("ln")))
 
 
 def token_accessors(prog, rep, ver, mod):
